@@ -139,7 +139,16 @@ pub fn load_fixture_file(path: &str) -> Vec<FixCase> {
                 if let Some(al) = txj.get("authorizationList").and_then(|a| a.as_array()) {
                     tx.auth_list = Some(
                         al.iter()
-                            .map(|a| AuthSpec { chain_id: hu(&a["chainId"]), address: parse_addr(a["address"].as_str().unwrap()), nonce: hu(&a["nonce"]), authority: a.get("signer").and_then(|s| s.as_str()).map(parse_addr) })
+                            .map(|a| {
+                                // the authority is what the signature recovers to (alloy's k256 recovery, the same
+                                // trusted base revme uses); the fixture's `signer` is only the intended signer
+                                let auth = revm::primitives::Authorization { chain_id: hx(&a["chainId"]), address: parse_addr(a["address"].as_str().unwrap()), nonce: hu(&a["nonce"]) };
+                                let v = a.get("v").or_else(|| a.get("yParity")).map(hx).unwrap_or_default();
+                                let v8 = if v > U256::from(255u64) { 255u8 } else { v.as_limbs()[0] as u8 };
+                                let signed = revm::primitives::SignedAuthorization::new_unchecked(auth, v8, hx(&a["r"]), hx(&a["s"]));
+                                let authority = signed.recover_authority().ok();
+                                AuthSpec { chain_id: hu(&a["chainId"]), address: parse_addr(a["address"].as_str().unwrap()), nonce: hu(&a["nonce"]), authority }
+                            })
                             .collect(),
                     );
                 }
@@ -185,12 +194,16 @@ fn accounts_diff(want: &BTreeMap<Address, Acct>, got: &World) -> Option<String> 
 
 /// compare the real Evm and the reference on one single-transaction case
 pub fn diff_case(case: &Case, rep: &mut Report, origin: &str, want_post: Option<&BTreeMap<Address, Acct>>, expect_exception: Option<bool>) -> bool {
+    diff_case_pid("C01", case, rep, origin, want_post, expect_exception)
+}
+
+pub fn diff_case_pid(pid: &str, case: &Case, rep: &mut Report, origin: &str, want_post: Option<&BTreeMap<Address, Acct>>, expect_exception: Option<bool>) -> bool {
     let cj = || json!({"case": case.to_json(), "origin": origin});
     rep.eval();
     // real
     let real = crate::wrun::run_history(case, None, false);
     if let Some((_, p)) = &real.panic {
-        report_panic(rep, "C01", p, cj());
+        report_panic(rep, pid, p, cj());
         return false;
     }
     let r_out = &real.outcomes[0];
@@ -217,7 +230,7 @@ pub fn diff_case(case: &Case, rep: &mut Report, origin: &str, want_post: Option<
             if ex && !rejected {
                 rep.count("fixture_expect_exception_but_executed(see note)");
             } else {
-                rep.violation(format!("C01/fixture/rejected-valid-transaction/{fork}"), format!("{origin}: revm rejected ({}) a transaction the fixture executes", r_out.to_json()), cj());
+                rep.violation(format!("{pid}/fixture/rejected-valid-transaction/{fork}"), format!("{origin}: revm rejected ({}) a transaction the fixture executes", r_out.to_json()), cj());
                 return false;
             }
         }
@@ -226,7 +239,7 @@ pub fn diff_case(case: &Case, rep: &mut Report, origin: &str, want_post: Option<
         rep.count("fixture_post_states_compared");
         if let Some(d) = accounts_diff(wp, &real.post) {
             let kind = Plainish::kind(&d);
-            rep.violation(format!("C01/fixture/post-state-differs/{kind}/{fork}"), format!("{origin}: fixture vs revm: {d}"), cj());
+            rep.violation(format!("{pid}/fixture/post-state-differs/{kind}/{fork}"), format!("{origin}: fixture vs revm: {d}"), cj());
             return false;
         }
         if let Some(rr) = &rr {
@@ -238,6 +251,10 @@ pub fn diff_case(case: &Case, rep: &mut Report, origin: &str, want_post: Option<
     }
     // against the reference
     if let Some(rr) = &rr {
+        if rr.out_of_domain {
+            rep.count("skipped(balance above 2^256-1 in the reference: outside the specification's domain)");
+            return false;
+        }
         rep.count("reference_comparisons");
         let a = r_out;
         let b = &rr.outcome;
@@ -250,7 +267,8 @@ pub fn diff_case(case: &Case, rep: &mut Report, origin: &str, want_post: Option<
                     Some("gas-used".into())
                 } else if *c1 == "success" && r1 != r2 {
                     Some("gas-refunded".into())
-                } else if o1 != o2 {
+                } else if o1 != o2 && !(case.txs[0].to.is_none() && *c1 == "success") {
+                    // (a successful create transaction has no return data in the specification)
                     Some("output".into())
                 } else if l1 != l2 {
                     Some("logs".into())
@@ -265,15 +283,20 @@ pub fn diff_case(case: &Case, rep: &mut Report, origin: &str, want_post: Option<
             _ => Some("other".into()),
         };
         if let Some(m) = mism {
-            rep.violation(format!("C01/reference/{m}/{fork}"), format!("{origin}: revm {} vs reference {}", a.to_json(), b.to_json()), cj());
+            rep.violation(format!("{pid}/reference/{m}/{fork}"), format!("{origin}: revm {} vs reference {}", a.to_json(), b.to_json()), cj());
             return false;
         }
         if matches!(a, TxOutcome::Executed { .. }) {
             if let Some(d) = world_diff(&rr.post, &real.post) {
-                rep.violation(format!("C01/reference/post-state/{}/{fork}", Plainish::kind(&d)), format!("{origin}: reference vs revm: {d}"), cj());
+                rep.violation(format!("{pid}/reference/post-state/{}/{fork}", Plainish::kind(&d)), format!("{origin}: reference vs revm: {d}"), cj());
                 return false;
             }
             rep.add("reference_steps", rr.steps);
+            for (op, n) in rr.op_hist.iter().enumerate() {
+                if *n > 0 {
+                    rep.cell_add(&format!("opcodes_executed_by_reference/{}", if case.spec >= SpecId::BERLIN { "berlin+" } else { "pre-berlin" }), &format!("{:02x}", op), *n as u64);
+                }
+            }
         }
     }
     true
